@@ -46,6 +46,9 @@ func c20bGen(t *rapid.T) c20bCase {
 	}
 	if rapid.Bool().Draw(t, "marks") {
 		egAddMarks(t, &c.G)
+		// a marker behind a nullable last part matters where a node's end is trimmed back over
+		// skipped tokens: keep injected comments on whenever there is a space token
+		c.Comments = c.Space
 	}
 	if rapid.IntRange(0, 2).Draw(t, "recovery") > 0 {
 		n := rapid.IntRange(1, 2).Draw(t, "nerr")
